@@ -230,7 +230,9 @@ pub fn params_replay(args: &Args) -> i32 {
             Ok(Err(_)) => {}
             Ok(Ok(rt)) => {
                 okk = true;
-                if rt.consumed > s.len() || rt.rebuilt[..] != s[..rt.consumed] {
+                if let Some(e) = &rt.reconstruct_error {
+                    viol = Some(("corrections-not-readable".into(), format!("corrections were produced under this vector but reading them back fails: {}", e)));
+                } else if rt.consumed > s.len() || rt.rebuilt[..] != s[..rt.consumed] {
                     viol = Some(("reconstruction-differs".into(), format!("corrections produced under this vector reconstruct a different stream ({} vs {} bytes)", rt.rebuilt.len(), rt.consumed)));
                 } else if rt.vec_reread != *v {
                     // unused hash parameters / limit are not transported; compare the transported part
